@@ -7,12 +7,12 @@ TECHNIQUE = ("runtime monitoring: icontract postconditions on the real BTSString
              "(every cp1252 character x position x width, lengths 0..w+3, non-cp1252 code points, random byte fields)")
 RULE = ("widths {1,2,3,4,32,256}: every one of the 250 cp1252-encodable NUL-free characters at the first, middle and last "
         "position of a maximal string, alone, and repeated to width (over-long by one); lengths 0..w+3; 12 non-cp1252 "
-        "strings; every BMP code point cp1252 cannot encode, alone and after a letter, letter + combining mark, decomposed forms of every encodable character; random strings; read side: random / terminated / unterminated / all-zero byte fields with tail "
+        "strings; every BMP code point cp1252 cannot encode, alone and after a letter, letter + combining mark, decomposed forms of every encodable character; random strings; default reads repeated after (and, for non-ASCII strings, preceded by) reads of the same bytes under latin-1 / utf-8 / cp437; read side: random / terminated / unterminated / all-zero byte fields with tail "
         "re-randomisation; labels of width-2..width+5 through six item classes given to the constructor or assigned to the item afterwards, comments through TdfEntry and through add_block / replace_block(comment="") / replace_block() / setters on real files read back after reopening; "
         "non-trivial = every case (distinct (width, string) or (width, bytes))")
 ASSUMPTIONS = ["'encodable' is defined by Python's cp1252 codec", "strings with an embedded NUL are outside the domain",
                "bytes cp1252 cannot decode before the terminator are counted, not judged"]
-REQUIRED = {t: ["oracle:C13.write-valid", "oracle:C13.write-invalid-refused", "oracle:C13.roundtrip", "oracle:C13.read",
+REQUIRED = {t: ["oracle:C13.default-read-after-read-in-other-code-page", "oracle:C13.first-read-in-other-code-page", "oracle:C13.write-valid", "oracle:C13.write-invalid-refused", "oracle:C13.roundtrip", "oracle:C13.read",
                 "oracle:C13.read-tail-independent", "contract:BTSString.write.post", "contract:BTSString.read.post",
                 "c13:through-block", "c13:through-entry", "c13:through-block:assigned-later",
                 "oracle:C13.comment-roundtrip-through-file", "c13:write:bmp-unencodable"] for t in ("quick", "thorough")}
